@@ -79,11 +79,15 @@ def make_underlying(spec):
         return U.Spot()
     if spec[0] == "asian":
         return U.Asian()
+    if spec[0] == "logspot":
+        return U.LogSpot()
+    if spec[0] == "libors":
+        return U.Libors()
     return U.DefaultTime(spec[1])
 
 
 def und_lit(spec):
-    return {"spot": "USpot", "asian": "UAsian"}.get(spec[0]) or f"(UDefaultTime {qlit(spec[1])})"
+    return {"spot": "USpot", "libors": "USpot", "asian": "UAsian", "logspot": "ULogSpot"}.get(spec[0]) or f"(UDefaultTime {qlit(spec[1])})"
 
 
 def make_product(pspec):
@@ -113,9 +117,15 @@ def apply_op(prod, op):
             _, times, path, jumps = op
             u = prod.underlying_value(np.array(times, dtype=float), np.array(path, dtype=float), np.array(jumps, dtype=float))
             u = float(u)
+            if u != u:
+                return ("u", "err")              # nan: Asian average over a grid that ends at time 0
             return ("u", fin(u))
         v = prod(op[1])
         return ("v", float(v))
+    except ZeroDivisionError as e:
+        if op[0] == "uv":
+            return ("u", "err")                  # Asian average over an empty grid
+        return ("raise", f"{type(e).__name__}: {e}")
     except Exception as e:  # noqa
         return ("raise", f"{type(e).__name__}: {e}")
 
@@ -131,6 +141,8 @@ def op_lit(op, with_jumps):
 
 
 def out_lit(o):
+    if o[0] == "u" and o[1] == "err":
+        return "(OutU UErr)"
     if o[0] == "u":
         return "(OutU UInf)" if o[1] is None else f"(OutU (UFin {qlit(o[1])}))"
     if o[0] == "v":
@@ -151,8 +163,9 @@ def gen_times(rng, n):
     return [0.0] + [T * k / 64 for k in inner] + [T]
 
 
-def gen_payoff(rng, scale_log):
-    lo, hi, den = ((3.5, 5.5, 16) if scale_log else (70, 150, 8))
+def gen_payoff(rng, scale_log=False):
+    """strikes and barriers are ALWAYS in spot units (the product's terms do not depend on the representation of the process)"""
+    lo, hi, den = 70, 150, 8
     kind = rng.choice(["forward", "vanilla", "vanilla", "spread", "butterfly", "digital", "barrier", "barrier", "barrier"])
     ks = sorted({dy(rng, lo, hi, den) for _ in range(6)})
     if kind == "forward":
@@ -166,7 +179,7 @@ def gen_payoff(rng, scale_log):
         return ("butterfly", k1, (k1 + k3) / 2, k3)          # symmetric here; asymmetric ones in the static section
     if kind == "digital":
         return ("digital", rng.random() < 0.5, ks[1])
-    return ("barrier", rng.choice([1, -1]), ks[1], rng.random() < 0.5, rng.random() < 0.5, rng.choice(ks + [dy(rng, 3.5, 5.5, 16)]))
+    return ("barrier", rng.choice([1, -1]), ks[1], rng.random() < 0.5, rng.random() < 0.5, rng.choice(ks + [dy(rng, 60, 200, 8) + 1 / 16]))
 
 
 def gen_spot_path(rng, n, lg):
@@ -197,7 +210,7 @@ def gen_jump_path(rng, n, lg, a):
 
 def gen_sequence(rng, tier):
     """-> (product spec, ops, triple positions [(index of uv, index of call, rep in force)])"""
-    und = rng.choice([("spot",), ("spot",), ("asian",), ("dt", -dy(rng, 0.25, 1.5, 8))])
+    und = rng.choice([("spot",), ("spot",), ("asian",), ("asian",), ("libors",), ("logspot",), ("dt", -dy(rng, 0.25, 1.5, 8))])
     mostly_log = rng.random() < 0.3
     pspec = {"und": und, "pay": gen_payoff(rng, mostly_log), "notional": dy(rng, 0.25, 8, 4)}
     ops, triples, cur = [], [], False
@@ -209,6 +222,8 @@ def gen_sequence(rng, tier):
         for _ in range(nuv):
             n = rng.randrange(1, 13)
             times = gen_times(rng, n)
+            if und[0] == "asian" and rng.random() < 0.06:
+                n, times = rng.choice([(1, [0.0]), (0, [])])     # degenerate grid: nan / ZeroDivisionError in Python, UErr in the model
             if und[0] == "dt":
                 jumps = None
                 while jumps is None:
@@ -238,7 +253,7 @@ def run_sequence(pspec, ops):
             op = ("call", last_u)
         o = apply_op(prod, op)
         if op[0] == "uv":
-            last_u = o[1] if o[0] == "u" else None
+            last_u = o[1] if (o[0] == "u" and isinstance(o[1], float)) else None
         idx_map[k] = len(real_ops)
         real_ops.append(op)
         outs.append(o)
@@ -257,6 +272,8 @@ def tables_for(pspec, ops):
             # representation actually bound in the implementation may lag (unrepaired tree): provide both tables always
             for v in path:
                 et[v] = float(np.exp(np.float64(v))) if v < 700 else 0.0
+            if pspec["und"][0] == "logspot" and path and path[-1] > 0:
+                lt[path[-1]] = float(np.log(np.float64(path[-1])))
             if pspec["und"][0] == "dt" and all(v > 0 for v in jumps):
                 lg_ = np.log(np.array(jumps, dtype=float))
                 for v, l in zip(jumps, lg_):
